@@ -16,7 +16,8 @@ COMPONENTS = {
     'real': ['geophires_x_client.GeophiresXClient (reused instances, caching on/off)', 'geophires_x_client.GeophiresInputParameters',
              'geophires_x_client.GeophiresXResult (parser, as_csv)', 'geophires_x.__main__ (in-process via runpy, and as real subprocess in the C20 matrix)',
              'geophires_x.GEOPHIRESv3.main + Model + all reservoir/wellbore/plant/economics modules', 'hip_ra_x.HipRaXClient + hip_ra_x',
-             'geophires_monte_carlo client (small embedded runs on the simulated pool)'],
+             'geophires_monte_carlo client (small embedded runs on the simulated pool)',
+             'the JSON writer at the end of GEOPHIRESv3.main (read back and compared with the report and with the pristine run)'],
     'modelled': ['wall clock (simulated, with injected jumps)', 'OS entropy / uuid1 / uuid4', 'file seam: open/stat/rename/unlink/fsync and buffered writes '
                  '(dsim.kernel.SimFile) with injected ENOSPC/EIO/EACCES/ENOENT and cancellation (KeyboardInterrupt) at a chosen seam event',
                  'iteration order of the sets used by the result parser (SimSet: every pop order)', 'caller cwd / sys.argv / directory tree'],
@@ -24,9 +25,13 @@ COMPONENTS = {
 }
 
 ASSUMPTIONS = [
-    'oracle = the same request content run alone through the real client in a process forked from the import-only template before any '
-    'operation of the history ran (memoised per content for the duration of one check invocation); equality is exact on the report text '
-    'minus the three stamp lines and on the parsed result',
+    'oracle = the same request content run alone through the real client in a child forked from an import-only reference server that was '
+    "exec'ed under ANOTHER PYTHONHASHSEED than the history's interpreter (memoised per content for the duration of one check invocation); "
+    'equality is exact on the report text minus the three stamp lines, on the parsed result and on the JSON written next to the report; a '
+    "difference is re-judged against the same content run alone under the history's own hash seed (fork of the pristine template) to tell "
+    'hash-seed dependence from history dependence',
+    'JSON-vs-report: only scalar numeric JSON entries whose display name (or name) labels exactly one report line printed in the unit the '
+    'entry states are compared (about a quarter of the entries); the investment tax credit is printed negated by convention',
     'request families are the offline-runnable example inputs plus two synthetic ones, with parameters moved on a small discrete grid; '
     'input coverage is not what this technique provides',
     'one history runs in one child forked from the template; nothing survives between histories',
@@ -265,6 +270,7 @@ def main(prop, tier):
             'probes': tally.sub('probe_'),
             'parser': tally.sub('parse_'),
             'reference_cache': tally.sub('ref_'),
+            'reference_hash_seed': histsim.other_hash_seed(), 'history_hash_seed': os.environ.get('PYTHONHASHSEED'),
             'determinism': det,
             'history_wall_s': {'max': max(walls.values()) if walls else 0, 'mean': round(sum(walls.values()) / max(1, len(walls)), 3)},
             'components': COMPONENTS,
